@@ -8,6 +8,7 @@ package main
 // assignment to an identifier of that condition.
 
 import (
+	"fmt"
 	"go/ast"
 	"go/token"
 	"go/types"
@@ -22,9 +23,14 @@ type Event struct {
 }
 
 type CondStep struct {
-	Expr  ast.Expr // nil for type-switch / select clauses
-	Taken bool
-	Label string
+	Expr   ast.Expr // nil for type-switch / select clauses and assignment markers
+	Taken  bool
+	Label  string
+	At     int            // number of events on the path before this step
+	Assign []types.Object // objects (re)assigned at this point: facts about them are reset
+	Node   ast.Node       // loop / switch node for labelled steps
+	F      Formula        // the decision as a formula over atoms (nil for labels)
+	Ver    map[types.Object]int
 }
 
 type Path struct {
@@ -32,6 +38,24 @@ type Path struct {
 	Conds   []CondStep
 	End     string // fall, return, continue, break, panic
 	EndNode ast.Node
+	ver     map[types.Object]int // assignment epoch of locals (copy on write)
+	defs    map[types.Object]string
+}
+
+// Formulas returns the formulas of all decisions on the path.
+func (p Path) Formulas() []Formula {
+	var fs []Formula
+	for _, c := range p.Conds {
+		if c.F != nil {
+			fs = append(fs, c.F)
+		}
+	}
+	return fs
+}
+
+// Entails reports whether the path's decisions imply f (by exhaustive valuation).
+func (p Path) Entails(f Formula) bool {
+	return !satisfiable(append(p.Formulas(), fnot(f)))
 }
 
 func (p Path) count(kind string) int {
@@ -57,6 +81,8 @@ func (p Path) describe(pr *Prog) string {
 				sb.WriteString("!")
 			}
 			sb.WriteString("(" + types.ExprString(c.Expr) + ")")
+		} else if c.Label == "assign" {
+			sb.WriteString("·")
 		} else {
 			sb.WriteString(c.Label)
 		}
@@ -84,12 +110,17 @@ func lineOf(pr *Prog, n ast.Node) string {
 }
 
 type pathEnum struct {
-	info     *types.Info
-	ev       func(n ast.Node) []Event
-	cap      int
-	overflow bool
-	unsup    []string
-	inLoop   int
+	callOrd     map[*ast.CallExpr]string
+	fd          *ast.FuncDecl
+	uniq        int
+	pure        func(call *ast.CallExpr) bool
+	atLeastOnce func(node ast.Node) bool // loops that are known to run at least once
+	info        *types.Info
+	ev          func(n ast.Node) []Event
+	cap         int
+	overflow    bool
+	unsup       []string
+	inLoop      int
 }
 
 const pathCap = 4096
@@ -98,10 +129,47 @@ const pathCap = 4096
 // every simple statement and condition expression and returns the events it
 // contains (in evaluation order).
 func enumPaths(info *types.Info, stmts []ast.Stmt, ev func(n ast.Node) []Event) ([]Path, *pathEnum) {
-	pe := &pathEnum{info: info, ev: ev, cap: pathCap}
+	return enumPathsOpt(info, stmts, ev, nil)
+}
+
+func enumPathsOpt(info *types.Info, stmts []ast.Stmt, ev func(n ast.Node) []Event, atLeastOnce func(ast.Node) bool) ([]Path, *pathEnum) {
+	pe := &pathEnum{info: info, ev: ev, cap: pathCap, atLeastOnce: atLeastOnce}
+	return pe.run(stmts)
+}
+
+func (pe *pathEnum) run(stmts []ast.Stmt) ([]Path, *pathEnum) {
+	prev := curEnum
+	curEnum = pe
+	defer func() { curEnum = prev }()
+	if pe.pure == nil {
+		pe.pure = func(call *ast.CallExpr) bool { return defaultPure(pe.info, call) }
+	}
+	pe.numberCalls(stmts)
 	start := []Path{{End: "fall"}}
 	out := pe.seq(start, stmts)
 	return out, pe
+}
+
+// defaultPure: calls whose result depends only on their arguments and that
+// have no effect: generated getters, len, the reflection helper isNil.
+func defaultPure(info *types.Info, call *ast.CallExpr) bool {
+	obj := calleeObj(info, call)
+	if f, ok := obj.(*types.Func); ok {
+		if strings.HasPrefix(f.Name(), "Get") && len(call.Args) == 0 {
+			return true
+		}
+		if f.Name() == "isNil" && f.Pkg() != nil && f.Pkg().Path() == ribPkg {
+			return true
+		}
+	}
+	return false
+}
+
+// enumFunc enumerates the paths of a whole function body; local single
+// definitions are inlined in condition terms.
+func enumFunc(fi *FuncInfo, ev func(n ast.Node) []Event, atLeastOnce func(ast.Node) bool) ([]Path, *pathEnum) {
+	pe := &pathEnum{info: fi.Pkg.TypesInfo, ev: ev, cap: pathCap, atLeastOnce: atLeastOnce, fd: fi.Decl}
+	return pe.run(fi.Decl.Body.List)
 }
 
 func (pe *pathEnum) events(n ast.Node) []Event {
@@ -118,10 +186,66 @@ func (pe *pathEnum) events(n ast.Node) []Event {
 }
 
 func clonePath(p Path) Path {
-	q := Path{End: p.End, EndNode: p.EndNode}
+	q := Path{End: p.End, EndNode: p.EndNode, ver: p.ver, defs: p.defs}
 	q.Events = append([]Event(nil), p.Events...)
 	q.Conds = append([]CondStep(nil), p.Conds...)
 	return q
+}
+
+func addCond(p *Path, cs CondStep) {
+	cs.At = len(p.Events)
+	cs.Ver = p.ver
+	if cs.Expr != nil && cs.F == nil && curEnum != nil {
+		x := curEnum.xlatP(p)
+		f := x.formula(cs.Expr)
+		if !cs.Taken {
+			f = fnot(f)
+		}
+		cs.F = f
+	}
+	p.Conds = append(p.Conds, cs)
+}
+
+// curEnum is the enumerator in use (enumeration is single-threaded).
+var curEnum *pathEnum
+
+func (pe *pathEnum) xlat(ver map[types.Object]int, defs map[types.Object]string) *condXlat {
+	return &condXlat{info: pe.info, fd: pe.fd, ver: ver, uniq: &pe.uniq, pure: pe.pure, defs: defs, callOrd: pe.callOrd}
+}
+
+func (pe *pathEnum) xlatP(p *Path) *condXlat { return pe.xlat(p.ver, p.defs) }
+
+// numberCalls names every call of the analysed statements "call:<callee>#<n>",
+// n being its ordinal among the calls to the same callee in source order: a
+// position-free identity for the result of an impure call.
+func (pe *pathEnum) numberCalls(stmts []ast.Stmt) {
+	pe.callOrd = map[*ast.CallExpr]string{}
+	count := map[string]int{}
+	for _, st := range stmts {
+		ast.Inspect(st, func(n ast.Node) bool {
+			call, ok := n.(*ast.CallExpr)
+			if !ok {
+				return true
+			}
+			name := ""
+			if fld, _ := fieldCall(pe.info, call); fld != "" {
+				name = fld
+			} else if obj := calleeObj(pe.info, call); obj != nil {
+				if _, isB := obj.(*types.Builtin); isB {
+					return true
+				}
+				if _, isT := obj.(*types.TypeName); isT {
+					return true
+				}
+				name = obj.Name()
+			} else {
+				return true
+			}
+			count[name]++
+			pe.callOrd[call] = fmt.Sprintf("call:%s#%d", name, count[name])
+			return true
+		})
+	}
 }
 
 func extend(p Path, evs []Event) Path {
@@ -155,6 +279,113 @@ func (pe *pathEnum) seq(in []Path, stmts []ast.Stmt) []Path {
 	}
 	return append(done, cur...)
 }
+
+// assigned lists the objects a simple statement (re)assigns.
+func (pe *pathEnum) assigned(s ast.Stmt) []types.Object {
+	var out []types.Object
+	add := func(e ast.Expr) {
+		if id, ok := ast.Unparen(e).(*ast.Ident); ok {
+			if o := pe.info.ObjectOf(id); o != nil {
+				out = append(out, o)
+			}
+		}
+	}
+	switch x := s.(type) {
+	case *ast.AssignStmt:
+		for _, l := range x.Lhs {
+			add(l)
+		}
+	case *ast.IncDecStmt:
+		add(x.X)
+	}
+	return out
+}
+
+// applyAssign bumps the epoch of assigned locals, records the defining call
+// of locals assigned from a call and, for boolean assignments with a
+// call-free right-hand side, records lhs ⇔ rhs.
+func (pe *pathEnum) applyAssign(q *Path, s ast.Stmt, assigned []types.Object) {
+	old, oldDefs := q.ver, q.defs
+	var synth []Formula
+	as, isAssign := s.(*ast.AssignStmt)
+	nv := map[types.Object]int{}
+	for k, v := range old {
+		nv[k] = v
+	}
+	nd := map[types.Object]string{}
+	for k, v := range oldDefs {
+		nd[k] = v
+	}
+	definesHere := map[types.Object]bool{}
+	if isAssign && as.Tok == token.DEFINE {
+		for _, l := range as.Lhs {
+			if id, ok := ast.Unparen(l).(*ast.Ident); ok {
+				if o := pe.info.Defs[id]; o != nil {
+					definesHere[o] = true
+				}
+			}
+		}
+	}
+	for _, o := range assigned {
+		delete(nd, o)
+		if definesHere[o] {
+			continue // a fresh variable keeps epoch 0
+		}
+		nv[o] = old[o] + 1
+	}
+	if isAssign {
+		// results of a call
+		if len(as.Rhs) == 1 {
+			if call, ok := ast.Unparen(as.Rhs[0]).(*ast.CallExpr); ok {
+				if name, ok := pe.callOrd[call]; ok {
+					if t, pureTerm := pe.xlat(old, oldDefs).term(call); pureTerm && !strings.HasPrefix(t, "call:") {
+						name = t // pure getter chains keep their canonical term
+					}
+					for i, l := range as.Lhs {
+						if id, ok := ast.Unparen(l).(*ast.Ident); ok {
+							if o := pe.info.ObjectOf(id); o != nil {
+								if len(as.Lhs) == 1 {
+									nd[o] = name
+								} else {
+									nd[o] = fmt.Sprintf("%s.%d", name, i)
+								}
+							}
+						}
+					}
+				}
+			}
+		}
+		if len(as.Lhs) == len(as.Rhs) {
+			for i, l := range as.Lhs {
+				id, ok := ast.Unparen(l).(*ast.Ident)
+				if !ok {
+					continue
+				}
+				o := pe.info.ObjectOf(id)
+				if o == nil {
+					continue
+				}
+				b, ok := o.Type().Underlying().(*types.Basic)
+				if !ok || b.Info()&types.IsBoolean == 0 || hasCall(as.Rhs[i]) {
+					continue
+				}
+				rhs := pe.xlat(old, oldDefs).formula(as.Rhs[i])
+				lhs := pe.xlat(nv, nd).formula(id)
+				// lhs ⇔ rhs
+				synth = append(synth, fnot(fand(fnot(fand(lhs, rhs)), fnot(fand(fnot(lhs), fnot(rhs))))))
+			}
+		}
+	}
+	q.ver, q.defs = nv, nd
+	addCond(q, CondStep{Label: "assign", Assign: assigned})
+	for _, f := range synth {
+		q.Conds = append(q.Conds, CondStep{Label: "assign", At: len(q.Events), F: f, Ver: nv})
+	}
+}
+
+// definedBefore is a conservative helper: a := definition inside a loop body
+// is a redefinition on later iterations, but iterations are not unrolled.
+func (pe *pathEnum) definedBefore(o types.Object, s ast.Stmt) bool { return false }
 
 func (pe *pathEnum) isTerminatingCall(call *ast.CallExpr) bool {
 	switch f := call.Fun.(type) {
@@ -207,9 +438,14 @@ func (pe *pathEnum) stmt(in []Path, s ast.Stmt) []Path {
 		return out
 	case *ast.AssignStmt, *ast.IncDecStmt, *ast.DeclStmt, *ast.SendStmt, *ast.GoStmt, *ast.DeferStmt, *ast.EmptyStmt:
 		evs := pe.events(s)
+		assigned := pe.assigned(s)
 		var out []Path
 		for _, p := range in {
-			out = append(out, extend(p, evs))
+			q := extend(p, evs)
+			if len(assigned) > 0 {
+				pe.applyAssign(&q, s, assigned)
+			}
+			out = append(out, q)
 		}
 		return out
 	case *ast.ReturnStmt:
@@ -255,9 +491,9 @@ func (pe *pathEnum) stmt(in []Path, s ast.Stmt) []Path {
 			}
 			base := extend(p, cevs)
 			tp := clonePath(base)
-			tp.Conds = append(tp.Conds, CondStep{Expr: s.Cond, Taken: true})
+			addCond(&tp, CondStep{Expr: s.Cond, Taken: true})
 			fp := clonePath(base)
-			fp.Conds = append(fp.Conds, CondStep{Expr: s.Cond, Taken: false})
+			addCond(&fp, CondStep{Expr: s.Cond, Taken: false})
 			if !pe.infeasible(tp) {
 				out = append(out, pe.seq([]Path{tp}, s.Body.List)...)
 			}
@@ -316,12 +552,12 @@ func (pe *pathEnum) stmt(in []Path, s ast.Stmt) []Path {
 					}
 					lbl = "type " + strings.Join(ts, ",")
 				}
-				q.Conds = append(q.Conds, CondStep{Label: lbl, Taken: true})
+				addCond(&q, CondStep{Label: lbl, Taken: true})
 				out = append(out, pe.seq([]Path{q}, cl.Body)...)
 			}
 			if !hasDefault {
 				q := clonePath(base)
-				q.Conds = append(q.Conds, CondStep{Label: "type <no case>", Taken: true})
+				addCond(&q, CondStep{Label: "type <no case>", Taken: true})
 				out = append(out, q)
 			}
 		}
@@ -337,7 +573,7 @@ func (pe *pathEnum) stmt(in []Path, s ast.Stmt) []Path {
 					lbl = "select comm"
 					q.Events = append(q.Events, pe.events(cl.Comm)...)
 				}
-				q.Conds = append(q.Conds, CondStep{Label: lbl, Taken: true})
+				addCond(&q, CondStep{Label: lbl, Taken: true})
 				out = append(out, pe.seq([]Path{q}, cl.Body)...)
 			}
 		}
@@ -374,13 +610,13 @@ func (pe *pathEnum) loop(in []Path, condEvs []Event, body *ast.BlockStmt, post a
 			continue
 		}
 		base := extend(p, condEvs)
-		if !infinite {
+		if !infinite && !(pe.atLeastOnce != nil && pe.atLeastOnce(node)) {
 			z := clonePath(base)
-			z.Conds = append(z.Conds, CondStep{Label: "loop×0", Taken: true})
+			addCond(&z, CondStep{Label: "loop×0", Taken: true, Node: node})
 			out = append(out, z)
 		}
 		one := clonePath(base)
-		one.Conds = append(one.Conds, CondStep{Label: "loop×1", Taken: true})
+		addCond(&one, CondStep{Label: "loop×1", Taken: true, Node: node})
 		pe.inLoop++
 		bodyPaths := pe.seq([]Path{one}, body.List)
 		if post != nil {
@@ -439,23 +675,23 @@ func (pe *pathEnum) switchClauses(base Path, s *ast.SwitchStmt) []Path {
 			q := clonePath(neg)
 			for _, prev := range cl.List[:i] {
 				q.Events = append(q.Events, pe.events(prev)...)
-				q.Conds = append(q.Conds, pe.caseCond(s, prev, false))
+				addCond(&q, pe.caseCond(s, prev, false))
 			}
 			q.Events = append(q.Events, pe.events(e)...)
-			q.Conds = append(q.Conds, pe.caseCond(s, e, true))
+			addCond(&q, pe.caseCond(s, e, true))
 			if !pe.infeasible(q) {
 				out = append(out, pe.clauseBody(q, cl)...)
 			}
 		}
 		for _, e := range cl.List {
 			neg.Events = append(neg.Events, pe.events(e)...)
-			neg.Conds = append(neg.Conds, pe.caseCond(s, e, false))
+			addCond(&neg, pe.caseCond(s, e, false))
 		}
 	}
 	if !pe.infeasible(neg) {
 		if defaultClause != nil {
 			d := clonePath(neg)
-			d.Conds = append(d.Conds, CondStep{Label: "default", Taken: true})
+			addCond(&d, CondStep{Label: "default", Taken: true})
 			out = append(out, pe.clauseBody(d, defaultClause)...)
 		} else {
 			out = append(out, neg)
@@ -480,27 +716,20 @@ func (pe *pathEnum) caseCond(s *ast.SwitchStmt, e ast.Expr, taken bool) CondStep
 	return CondStep{Expr: &ast.BinaryExpr{X: s.Tag, Op: token.EQL, Y: e}, Taken: taken}
 }
 
-// infeasible prunes a path that decides one pure condition both ways. Only
-// the last step is compared with earlier ones, and only if no event-free
-// guarantee is needed: conditions containing calls are never pruned.
+// infeasible prunes a path whose decisions cannot all hold: the formulas of
+// its decisions (over versioned atoms; impure calls are fresh atoms) are
+// checked for satisfiability by exhaustive valuation.
 func (pe *pathEnum) infeasible(p Path) bool {
-	if len(p.Conds) < 2 {
+	fs := p.Formulas()
+	if len(fs) < 2 {
+		if len(fs) == 1 {
+			if c, ok := fs[0].(FConst); ok && !bool(c) {
+				return true
+			}
+		}
 		return false
 	}
-	last := p.Conds[len(p.Conds)-1]
-	if last.Expr == nil || hasCall(last.Expr) {
-		return false
-	}
-	ls := types.ExprString(last.Expr)
-	for _, c := range p.Conds[:len(p.Conds)-1] {
-		if c.Expr == nil {
-			continue
-		}
-		if types.ExprString(c.Expr) == ls && c.Taken != last.Taken && sameObjects(pe.info, c.Expr, last.Expr) {
-			return true
-		}
-	}
-	return false
+	return !satisfiable(fs)
 }
 
 func hasCall(e ast.Expr) bool {
@@ -588,4 +817,159 @@ func callsIn(n ast.Node) []*ast.CallExpr {
 		return true
 	})
 	return out
+}
+
+// ---- facts implied by the branch decisions of a path ------------------------
+
+// Facts maps a canonical leaf ("obj:<ptr>" for identifiers, "expr:<string>"
+// for other pure leaves) to +1 (true / non-nil) or -1 (false / nil).
+type Facts struct {
+	obj  map[types.Object]int
+	expr map[string]int
+}
+
+func (f *Facts) Obj(o types.Object) int { return f.obj[o] }
+
+// Expr returns what is known about the truth of a pure boolean leaf, given as
+// it would be printed by types.ExprString (e.g. `e.GetId() == 0`).
+func (f *Facts) Expr(s string) int { return f.expr[s] }
+
+// factsAfter collects the facts established by the branch decisions taken
+// after event index `from` (use -1 for the whole path) and before event index
+// `upto` (use len(Events) for "until the end").
+func factsAfter(info *types.Info, p Path, from, upto int) *Facts {
+	f := &Facts{obj: map[types.Object]int{}, expr: map[string]int{}}
+	for _, cs := range p.Conds {
+		if cs.At <= from || cs.At > upto {
+			continue
+		}
+		if len(cs.Assign) > 0 {
+			for _, o := range cs.Assign {
+				delete(f.obj, o)
+				// drop expression facts mentioning the object by name
+				for k := range f.expr {
+					if mentions(k, o.Name()) {
+						delete(f.expr, k)
+					}
+				}
+			}
+			continue
+		}
+		if cs.Expr != nil {
+			addFacts(info, f, cs.Expr, cs.Taken)
+		}
+	}
+	return f
+}
+
+func mentions(exprStr, name string) bool {
+	for i := 0; i+len(name) <= len(exprStr); i++ {
+		if exprStr[i:i+len(name)] == name {
+			before := i == 0 || !isIdentChar(exprStr[i-1])
+			after := i+len(name) == len(exprStr) || !isIdentChar(exprStr[i+len(name)])
+			if before && after {
+				return true
+			}
+		}
+	}
+	return false
+}
+
+func isIdentChar(b byte) bool {
+	return b == '_' || (b >= '0' && b <= '9') || (b >= 'a' && b <= 'z') || (b >= 'A' && b <= 'Z')
+}
+
+func addFacts(info *types.Info, f *Facts, e ast.Expr, taken bool) {
+	e = ast.Unparen(e)
+	switch x := e.(type) {
+	case *ast.BinaryExpr:
+		switch x.Op {
+		case token.LOR:
+			if !taken {
+				addFacts(info, f, x.X, false)
+				addFacts(info, f, x.Y, false)
+			}
+			return
+		case token.LAND:
+			if taken {
+				addFacts(info, f, x.X, true)
+				addFacts(info, f, x.Y, true)
+			}
+			return
+		case token.EQL, token.NEQ:
+			pos := taken
+			if x.Op == token.NEQ {
+				pos = !pos
+			}
+			// pos: "X == Y" holds
+			var other ast.Expr
+			var side ast.Expr
+			if isNilIdent(info, x.Y) {
+				side, other = x.X, x.Y
+			} else if isNilIdent(info, x.X) {
+				side, other = x.Y, x.X
+			}
+			if other != nil {
+				if id, ok := ast.Unparen(side).(*ast.Ident); ok {
+					if o := info.ObjectOf(id); o != nil {
+						if pos {
+							f.obj[o] = -1
+						} else {
+							f.obj[o] = +1
+						}
+					}
+				}
+			}
+			// boolean constants: x == true / x == false
+			if id, ok := ast.Unparen(x.X).(*ast.Ident); ok {
+				if b, isB := boolConst(info, x.Y); isB {
+					if o := info.ObjectOf(id); o != nil {
+						v := +1
+						if b != pos {
+							v = -1
+						}
+						f.obj[o] = v
+					}
+				}
+			}
+			// canonical expression fact, stored in == form
+			eq := &ast.BinaryExpr{X: x.X, Op: token.EQL, Y: x.Y}
+			v := -1
+			if pos {
+				v = +1
+			}
+			f.expr[types.ExprString(eq)] = v
+			return
+		}
+	case *ast.UnaryExpr:
+		if x.Op == token.NOT {
+			addFacts(info, f, x.X, !taken)
+			return
+		}
+	case *ast.Ident:
+		if o := info.ObjectOf(x); o != nil {
+			if taken {
+				f.obj[o] = +1
+			} else {
+				f.obj[o] = -1
+			}
+		}
+		return
+	}
+	v := -1
+	if taken {
+		v = +1
+	}
+	f.expr[types.ExprString(e)] = v
+}
+
+func boolConst(info *types.Info, e ast.Expr) (bool, bool) {
+	tv, ok := info.Types[e]
+	if !ok || tv.Value == nil {
+		return false, false
+	}
+	if b, ok := tv.Type.Underlying().(*types.Basic); ok && b.Info()&types.IsBoolean != 0 {
+		return tv.Value.String() == "true", true
+	}
+	return false, false
 }
